@@ -2,11 +2,13 @@
 pub mod ast;
 pub mod build;
 pub mod canon;
+pub mod emit;
 pub mod framework;
 pub mod gen;
 pub mod guard;
 pub mod model;
 pub mod oracle;
+pub mod pipeline;
 pub mod props;
 pub mod run;
 pub mod source;
